@@ -189,12 +189,30 @@ def run(seed: int, params: dict, replay: dict | None = None) -> dict:
                         info["late"] = True
                         sim.fault_hook = None
                         runner.running = False
-            # the scenario is over once r1's run() has returned (or is stuck): tear everything
-            # down (a second runner's own orderly stop is not what this run is about)
+            # the scenario is over once r1's run() has returned (or is stuck).  A second runner may be in the
+            # middle of claiming what r1 re-queued (popped, PENDING not yet written): let it come to rest first,
+            # so that "available but not queued" at the read-out really means lost
+            if not info.get("stuck") and n_runners == 2:
+                sim.sleep(1.0)
+                r2 = d.runners["r2"]
+                r2.running = False
+                t_end = sim.now + 30.0
+                while not info.get("r2_returned") and sim.now < t_end:
+                    sim.sleep(0.25)
             sim.stop_run("stop-stuck" if info.get("stuck") else "scenario-done")
 
         mains_extra = []
         d.runners["r1"].run = runner_main  # type: ignore[method-assign]
+        if n_runners == 2:
+            orig_run2 = d.runners["r2"].run
+
+            def runner2_main() -> None:
+                try:
+                    orig_run2()
+                finally:
+                    info["r2_returned"] = True
+
+            d.runners["r2"].run = runner2_main  # type: ignore[method-assign]
         d.run({"c": client}, extra=mains_extra)
         w = d.w
         common = w.result_common()
